@@ -1433,3 +1433,16 @@ VARIANTS += [
     V('C17-M34', 'M', ('C17',), QM, 'IterableQueue.renew', r"(\n        )z = self\._q\.get\(\)  # take out the extra `None`\n", r"\1with self._lids_lock:\1    z = self._q.get()\n", ('C17-9',), note='seeded C17-f6m1 shape'),
     V('C15-M33', 'M', ('C15',), RX, 'RemoteException.__init__', r"traceback\.format_exception\(type\(exc\), exc, tb\)", "traceback.format_exception(exc)", ('C15-3',), note='seeded C15-f6m1 shape'),
 ]
+
+VARIANTS += [
+    V('C04-E31', 'E', ALL, SV, 'Server._gather_output', r"(\n(\s+))if isinstance\(y, RemoteException\):\n\s+y = y\.exc\n(\s+)if not fut\.cancelled\(\):\n(\s+)try:\n(\s+)if isinstance\(y, BaseException\):\n", r"\1if not fut.cancelled():\n\4try:\n\5if isinstance(y, RemoteException):\n\5    fut.set_exception(y.exc)\n\5elif isinstance(y, BaseException):\n", note='unwrap at the point of delivery'),
+    V('C04-M33', 'M', ('C04', 'C06', 'C07'), SV, 'Server._gather_output', r"(\n(\s+))if isinstance\(y, BaseException\):\n(\s+)fut\.set_exception\(y\)\n", r"\1if isinstance(y, BaseException):\n\3fut.set_exception(y)\n\3continue\n", ('C04-12', 'C06-4', 'C07-4'), note='seeded C04-f6m1 shape: a failed request skips the slot signal'),
+    V('C04-M34', 'M', ('C04', 'C15'), RX, 'RemoteException.__init__', r"traceback\.format_exception\(type\(exc\), exc, exc\.__traceback__\)", "traceback.format_exception(type(exc), exc, exc.__traceback__, chain=False)", ('C04-13', 'C15-3'), note='seeded C04-f6m2 shape'),
+]
+
+VARIANTS += [
+    V('C11-M33', 'M', ('C11', 'C04', 'C09', 'C02'), WK, 'Worker._build_input_batches', r"if isinstance\(x, Exception\):\n(\s+)q_out\.put\(\(uid, RemoteException\(x\)\)\)\n(\s+)elif isinstance\(x, RemoteException\):\n\s+q_out\.put\(\(uid, x\)\)", r"if isinstance(x, (Exception, RemoteException)):\n\1q_out.put((uid, RemoteException(x)))", ('C11-11', 'C04-2', 'C09-10', 'C02-8'), note='seeded C11-f6m2 shape'),
+    V('C11-M34', 'M', ('C11', 'C04', 'C02'), SV, '_enter_server', r"except Exception as e:\n(\s+# The input can not be pickled)", r"except (TypeError, AttributeError) as e:\n\1", ('C11-11', 'C04-11', 'C02-8'), note='seeded C11-f6m1 shape'),
+    V('C14-M33', 'M', ('C14',), SP, 'Server._callmethod', r"(msg = \('#ERROR', self\._wrap_user_exc\(e\)\)\n)\s+return msg\n", r"\1", ('C14-14',), note='seeded C14-f6m1 shape'),
+    V('C13-M32', 'M', ('C13', 'C14'), SP, 'Server.decref', r"(\n(\s+))super\(\)\.decref\(c, ident\)\n", r"\1obj = self.id_to_obj[ident][0]\1super().decref(c, ident)\1if ident not in self.id_to_refcount:\1    obj.release()\n", ('C13-5',), note='seeded C13-f6m2 shape'),
+]
